@@ -60,6 +60,12 @@ CHECKS = {
  "C20": ("mc_facade", "4/C20", "exhaustive enumeration of operand tuples x ~130 facade entry points (six operator impl shapes, shift operators for 10 amount types and Uint amounts, every forwarded Bits method/operator, num-traits, num-integer, subtle, zeroize, Sum/Product); each execution returns (facade result, inherent result) from the real code, each side under its own catch_unwind",
          "The reference is the inherent method itself, called by path on the same operands in the same execution; results, Options, flags and panics must agree (a facade may panic only where the inherent method does or where its signature cannot express the inherent None).",
          "Universes: S(B)^2 for B<=8, limb-alphabet / 2^k+-1 universes at 10 wider widths, every shift/bit argument 0..B+65. Whether the inherent methods themselves are right is decided by C01-C13."),
+ "C04": ("mc_canon", "4/C04", "explicit-state search (stateright BFS, transition function = the real operations, invariants canonical + equal to the Z/2^BITS reference on every edge; full closure at 0..8 bits, bounded depth at wide widths) + exhaustive enumeration of comparisons/hashing, rejecting constructors and generators driven by enumerated RNG tapes + bounded exhaustive program-space probe of ill-formed (BITS,LIMBS) pairs through the real compiler",
+         "Closure of the canonical set under 79 operations is searched exhaustively (every reachable state canonical, every edge equal to the reference); ==, Hash and ordering are compared with the integers on all pairs; constructors must reject out-of-range limbs; 68 constructors x 10 ill-formed type pairs must be rejected at compile time or panic (with control programs on well-formed types).",
+         "quickcheck::Gen has a private entropy-seeded RNG: its draws are sampled and labelled so, not counted as exhaustive. Closure edges without a reference are checked for canonicity only. Trusted: stateright bookkeeping (BFS vs DFS counts cross-checked), rustc."),
+ "C19": ("probe", "4/C19", "bounded exhaustive enumeration of a program space (bases x digit strings x underscore placement x suffix x 16-29 widths up to 4096, pass-through tokens alone and nested) compiled through the real rustc + ruint-macro built from the working tree, vs Python integers and run-time parsing of the same digits",
+         "Every accepting literal's limbs and width are compared with the reference value and with from_str_radix at run time; every rejecting literal is its own program and must fail to compile; pass-through tokens must keep value and type at any nesting depth; failing batches are bisected to single literals.",
+         "Token trees beyond the listed nesting shapes and digit strings beyond the stated patterns are not explored. Trusted: rustc, Python int."),
 }
 
 NOT_YET = {}
@@ -72,7 +78,7 @@ def main():
     na = []
     for p in props:
         pid = p["id"]
-        if pid in CHECKS and os.path.exists(os.path.join(ROOT, "harness/src/bin", CHECKS[pid][0] + ".rs")) or (pid in CHECKS and CHECKS[pid][0] == "probe"):
+        if pid in CHECKS:
             eng, ref, tech, text, note = CHECKS[pid]
             checks.append({
                 "property_id": pid,
